@@ -89,9 +89,20 @@ inline Verdict checkHistory(const std::vector<Bytes>& buffers, HistoryStats& hs)
             if (!b.empty())
                 memcpy(heap, b.data(), b.size());
             std::vector<std::shared_ptr<lib::Packet>> got;
+            try
             {
                 DecodeWatch watch;
                 got = dec->decode(heap, b.size());
+            }
+            catch (const std::exception& e)
+            {
+                free(heap);
+                return Verdict::fail("buffer " + std::to_string(i) + " (" + std::to_string(b.size()) + " bytes): decode() did not return normally, it threw " + e.what());
+            }
+            catch (...)
+            {
+                free(heap);
+                return Verdict::fail("buffer " + std::to_string(i) + " (" + std::to_string(b.size()) + " bytes): decode() did not return normally, it threw");
             }
             bool untouched = b.empty() || memcmp(heap, b.data(), b.size()) == 0;
             free(heap);  // released before the packets are looked at: aliasing the input becomes a use-after-free
